@@ -689,7 +689,7 @@ func (b *bb) scenarioJoinShared() {
 	}
 	rounds := 2
 	if b.thorough {
-		rounds = 25
+		rounds = 4 // times 60 repetitions
 	}
 	var mu sync.Mutex
 	sentAt := map[int]time.Time{}
